@@ -11,7 +11,7 @@ import GB.C04.Model
   Values that do not parse ⇒ InvalidArgument; a body path that is not a field path of the request
   message ⇒ Internal (bad binding). Nothing else may appear in the message.
 
-  `expect` gives the exact expected outcome for *simple* requests (every key names a field outright,
+  `expectRules` gives the exact expected outcome for *simple* requests (every key names a field outright,
   keys do not overlap each other, no oneof is involved); the general rules `frameOK` / `mustFail`
   constrain every request.
 -/
@@ -165,7 +165,7 @@ def okLeaves : List (Except Err Msg) → Msg
 
 /-- Exact expected outcome (`some`) for simple requests; `none` = the per-field rule does not pin the
     outcome down (overlapping keys, oneofs, keys that fail to resolve half-way, JSON-named path variables). -/
-def expect (sch : Schema) (orc : Oracle) (root : MsgDesc) (bd : Binding) (dec : Dec) (rq : Request) : Option (Except Err Msg) :=
+def expectRules (sch : Schema) (orc : Oracle) (root : MsgDesc) (bd : Binding) (dec : Dec) (rq : Request) : Option (Except Err Msg) :=
   match bodyTarget sch root bd with
   | .quirk => none
   | .bad => some (.error .internal)
